@@ -287,7 +287,7 @@ func runCrypto(c *Ctx, r *Reporter) {
 		for _, b := range regionBlocks(enc) {
 			for _, ins := range b.Instrs {
 				call, ok := ins.(*ssa.Call)
-				if !ok || !(call.Call.IsInvoke() && call.Call.Method.Name() == "PutUint16") && !(call.Call.StaticCallee() != nil && call.Call.StaticCallee().Name() == "PutUint16") {
+				if !ok || !(call.Call.IsInvoke() && (call.Call.Method.Name() == "PutUint16" || call.Call.Method.Name() == "AppendUint16")) && !(call.Call.StaticCallee() != nil && (call.Call.StaticCallee().Name() == "PutUint16" || call.Call.StaticCallee().Name() == "AppendUint16")) {
 					continue
 				}
 				v := call.Call.Args[len(call.Call.Args)-1]
@@ -826,9 +826,26 @@ func headerLayout(fn *ssa.Function) (int64, int64) {
 						}
 					}
 				}
+				// binary.BigEndian.AppendUint16([]byte{version}, n): the length field follows the literal, the header is
+				// the literal and the two bytes
+				if name == "AppendUint16" {
+					for _, a := range x.Call.Args {
+						if sl, ok := a.(*ssa.Slice); ok {
+							if al, ok := sl.X.(*ssa.Alloc); ok {
+								if at, ok := al.Type().Underlying().(*types.Pointer).Elem().Underlying().(*types.Array); ok && at.Len() < 14 {
+									off = at.Len()
+									header = at.Len() + 2
+								}
+							}
+						}
+					}
+				}
 			case *ssa.Slice:
 				// decrypt: payload starts at ciphertext[H : …]
 				if k, ok := x.Low.(*ssa.Const); ok && x.High != nil && header < 0 {
+					if _, constHigh := x.High.(*ssa.Const); constHigh {
+						break // ciphertext[1:3]: the length field itself, not the payload
+					}
 					if _, isParam := x.X.(*ssa.Parameter); isParam {
 						header = k.Int64()
 					}
